@@ -128,6 +128,16 @@ func c15traversal(x *runner.X) {
 	mk := func(kind iplddecoders.Kind) *c15obj {
 		var size int
 		switch t.Intn(6) {
+		case 2:
+			// the length field (36-byte CID + data) exactly at, one below or one above the values
+			// where its varint grows: 2^7, 2^14 and (rarely: 2 MiB of payload) 2^21
+			if t.Bool(0.5) {
+				bits := t.Pick(7, 14, 7, 14, 7, 14, 7, 14, 21)
+				size = 1<<bits - 36 + t.Intn(3) - 1
+				x.Probe(fmt.Sprintf("c15.length_field_at_2^%d", bits))
+			} else {
+				size = 2 + r.Intn(60)
+			}
 		case 0:
 			size = 200 + r.Intn(400) // 2-byte section length
 		case 1:
